@@ -40,10 +40,13 @@ impl Regex {
 /// `str::parse::<u32>()` as a partial function of the text (R36)
 pub uninterp spec fn parse_u32(s: Seq<char>) -> Option<u32>;
 pub struct ParseIntError {}
-#[verifier::external_body]
-pub fn vx_parse_u32(s: &String) -> (r: Result<u32, ParseIntError>)
-    ensures match r { Ok(n) => parse_u32(s@) == Some(n), Err(_) => parse_u32(s@) is None },
-{ unimplemented!() }
+pub trait VxParse { fn vx_parse_u32(&self) -> Result<u32, ParseIntError>; }
+impl VxParse for String {
+    #[verifier::external_body]
+    fn vx_parse_u32(&self) -> (r: Result<u32, ParseIntError>)
+        ensures match r { Ok(n) => parse_u32(self@) == Some(n), Err(_) => parse_u32(self@) is None },
+    { unimplemented!() }
+}
 
 pub struct Cause {}
 #[verifier::external_body] pub fn vx_cause() -> Cause { unimplemented!() }
